@@ -565,11 +565,13 @@ class Spell:
 
 def check_fix(ctx, fi, est):
     ctx.analysed(fi)
-    loops = [s for s in fi.body if isinstance(s, ast.For) and isinstance(s.target, ast.Tuple) and len(s.target.elts) == 4]
+    loops = [s for s in fi.body if isinstance(s, ast.For) and isinstance(s.target, ast.Tuple) and
+             (len(s.target.elts) == 4 or (len(s.target.elts) == 2 and isinstance(s.target.elts[1], ast.Tuple) and len(s.target.elts[1].elts) == 4))]
     if len(loops) != 1:
         raise AnalysisError('fix_measurements: loop over the measurements not found')
     loop = loops[0]
-    Q, y, noise, proj = [U(e) for e in loop.target.elts]
+    tup = loop.target if len(loop.target.elts) == 4 else loop.target.elts[1]
+    Q, y, noise, proj = [U(e) for e in tup.elts]
     for kind in ('str', 'list', 'tuple'):
         for q_given in (True, False):
             sp = Spell(fi, proj, Q, kind, q_given)
